@@ -200,6 +200,19 @@ theorem c17_addAssertionSalted_element (h : Hash) (e p o : Env) (salt : Option B
   rw [addAssertionSalted_eq]
   exact InvL.addAssertionEnvelope_isOk h (saltedElement_slotOk h p o salt)
 
+/-- **the two copies of the add logic agree**: `add_assertion_envelope_salted(a, false)` - the worker
+behind the whole `*_salted` family, which carries its own copy of the duplicate check and of the node
+rebuilding - is `add_assertion_envelope(a)` for *every* element `a` (bare, decorated or obscured
+assertions, and non-assertions, which both refuse) and every receiver: same refusal, same
+"already present" answer, same node -/
+theorem c17_unsalted_door_is_plain_add (h : Hash) (e a : Env) :
+    addAssertionEnvelopeSalted h e a none = addAssertionEnvelope h e a := by
+  unfold addAssertionEnvelopeSalted addAssertionEnvelope
+  by_cases hs : a.slotOk = true
+  · simp only [hs, Bool.not_true, Bool.false_eq_true, if_false, Res.bind]
+    cases e <;> rfl
+  · simp [hs]
+
 /-- the receiver's subject and other assertions are unchanged; the one element added is
 `saltedElement h p o salt` -/
 theorem c17_addAssertionSalted_shape {h : Hash} {e p o r : Env} {salt : Option Bytes} (hi : Inv h e)
